@@ -119,6 +119,21 @@ def nonascii():
     return items
 
 
+def long_spellings():
+    """spellings of 63 / 64 / 65 / 127 / 128 / 129 / 191 / 256 / 1000 bytes next to short ones (length-indexed shortcuts, u64 masks)"""
+    items = []
+    lens = [63, 64, 65, 127, 128, 129, 191, 192, 256, 1000]
+    for phf in (False, True):
+        for flag in (False, True):
+            vs = [Variant("Short", "unit", [], [ser("s")]), Variant("Seven", "unit", [], [ser("sevenxx")])]
+            for i, n in enumerate(lens):
+                body = ("L%d-" % n + "abcdefghij" * 101)[:n]
+                vs.append(Variant("Long%d" % n, "unit", [], [ser(body)] + ([aci(True, explicit=False)] if flag and i % 2 else [])))
+            vs.append(Variant("LongIdentifierWithManyWordsThatGoesOnAndOnUntilItIsLongerThanSixtyFourBytesInEveryStyle", "unit"))
+            items.append(Item("E", vs, metas=([EM("phf")] if phf else []) + ([EM("sall", "SCREAMING_SNAKE_CASE")] if flag else [])))
+    return items
+
+
 def crate_configs(tier):
     return [{"name": ID.lower()}, {"name": ID.lower() + "probe", "kind": "genprobe"}]
 
@@ -133,7 +148,7 @@ probe_command = S.struct_probe_command
 def build_corpus(tier, rng):
     c = Corpus(ID)
     thorough = tier == "thorough"
-    cands = [("regression", it) for it in regression()] + [("systematic", it) for it in systematic(rng)] + [("non-ascii-ident", it) for it in nonascii()]
+    cands = [("regression", it) for it in regression()] + [("systematic", it) for it in systematic(rng)] + [("non-ascii-ident", it) for it in nonascii()] + [("long-spelling", it) for it in long_spellings() if not any(m.kind == "phf" for m in it.metas)]
     for _ in range(1400 if thorough else 110):
         cands.append(("random", G.string_enum(rng)))
     infos = G.classify(ID, [it for _, it in cands])
